@@ -266,7 +266,12 @@ def impl_build(c):
            'fut': getattr(fr, 'sent_future', None) is not None}
     one = fr.serialize()
     out['hex'] = one.hex()
-    out['dec'] = FR.dump(F.parse_or_ignore(one))
+    back = F.parse_or_ignore(one)
+    out['dec'] = FR.dump(back)
+    if back is not None and hasattr(back, 'data'):
+        from rsocket.helpers import payload_from_frame
+        pf = payload_from_frame(back)
+        out['pf'] = [FR.hx(pf.metadata), FR.hx(pf.data)]
     return out
 
 
@@ -507,6 +512,8 @@ class C02(Prop):
                 bad = 'data %s instead of %s' % (f['d'][:60], wd[:60])
             elif f.get('F', '0') != '0' or f['I'] != '0':
                 bad = 'FOLLOWS / IGNORE set on a whole frame'
+            elif has_pl and obs.get('pf') != [wmd, wd]:
+                bad = 'payload_from_frame gives the application %r instead of %r' % (obs.get('pf'), [wmd, wd])
             elif b in ('payload', 'request_channel') and f['C'] != FR.b01(bool(case['C'])):
                 bad = 'COMPLETE=%s but the caller said %r' % (f['C'], case['C'])
             elif b == 'payload' and f['N'] != FR.b01((True if case['N'] is None else case['N']) or wmd != '-' or wd != '-'):
